@@ -158,9 +158,12 @@ theorem nc_mk (ty : TokType) (v : Bytes) (s e : Z) (h : ty ≠ .comment) : NC (m
 theorem nc_ite {c : Prop} [Decidable c] {a b : Token × Z} (ha : NC a) (hb : NC b) : NC (if c then a else b) := by
   split <;> assumption
 
-theorem scanText_nc (z : Z) : NC (scanText z) := nc_mk _ _ _ _ (by decide)
+theorem nc_mkAt (ty : TokType) (v : Bytes) (s : Z) (stop : Pos) (e : Z) (h : ty ≠ .comment) :
+    NC (mkTokAt ty v s stop e) := h
+
+theorem scanText_nc (z : Z) : NC (scanText z) := nc_mkAt _ _ _ _ _ (by decide)
 theorem scanAccount_nc (z : Z) : NC (scanAccount z) := by
-  unfold scanAccount; exact nc_mk _ _ _ _ (by decide)
+  unfold scanAccount; exact nc_mkAt _ _ _ _ _ (by decide)
 theorem scanDirectiveOrAccount_nc (z : Z) : NC (scanDirectiveOrAccount z) := by
   unfold scanDirectiveOrAccount
   exact nc_ite (nc_mk _ _ _ _ (by decide)) (nc_ite (scanAccount_nc z) (scanText_nc z))
